@@ -14,6 +14,7 @@ package main
 //   json quote <bytes>   SexpStr{S}.SexpString(nil)  (= strconv.Quote)
 //   json qjs <bytes>  does encoding/json accept that output as one string literal: t | f
 //   json qrune <int>  SexpChar{Val}.SexpString(nil)  (= strconv.QuoteRune)
+//   json hist …       a history of encode/decode steps on long-lived interpreters (ch_json_hist.go)
 //
 // Value syntax (prefix): n | t | f | i <int> | u <uint> | d <hexbits> <ftext> <gtext> | e <hexbits> <etext> <gtext>
 //  | c <int> | s <bytes> | b <bytes> | y <bytes> | l <n> v… | a <n> v… | h <typename> <n> (k v)…
@@ -389,6 +390,8 @@ func jsonExec(toks []string) string {
 	}
 	mode := toks[0]
 	switch mode {
+	case "hist": // histories of encode/decode steps: ch_json_hist.go
+		return jsonHistExec(toks[1:])
 	case "quote", "qjs":
 		b, ok := decBytes(toks[1])
 		if !ok || len(toks) != 2 {
